@@ -196,22 +196,22 @@ pub mod iter {
         #[verifier::external_body]
         pub fn max_by_key<B, F: FnMut(&T) -> B>(self, f: F) -> (r: Option<T>)
             requires forall|t: &T| call_requires(f, (t,))
-            ensures r is Some ==> exists|i: int| 0 <= i < self@.items.len() && self@.items[i] == r->Some_0, r is None <==> self@.items.len() == 0
+            /*@PARTIAL*/ ensures r is Some ==> exists|i: int| 0 <= i < self@.items.len() && self@.items[i] == r->Some_0, r is None <==> self@.items.len() == 0
         { unimplemented!() }
         #[verifier::external_body]
         pub fn min_by_key<B, F: FnMut(&T) -> B>(self, f: F) -> (r: Option<T>)
             requires forall|t: &T| call_requires(f, (t,))
-            ensures r is Some ==> exists|i: int| 0 <= i < self@.items.len() && self@.items[i] == r->Some_0, r is None <==> self@.items.len() == 0
+            /*@PARTIAL*/ ensures r is Some ==> exists|i: int| 0 <= i < self@.items.len() && self@.items[i] == r->Some_0, r is None <==> self@.items.len() == 0
         { unimplemented!() }
         #[verifier::external_body]
         pub fn max_by<F: FnMut(&T, &T) -> ::std::cmp::Ordering>(self, f: F) -> (r: Option<T>)
             requires forall|a: &T, b: &T| call_requires(f, (a, b))
-            ensures r is Some ==> exists|i: int| 0 <= i < self@.items.len() && self@.items[i] == r->Some_0
+            /*@PARTIAL*/ ensures r is Some ==> exists|i: int| 0 <= i < self@.items.len() && self@.items[i] == r->Some_0
         { unimplemented!() }
         #[verifier::external_body]
         pub fn min_by<F: FnMut(&T, &T) -> ::std::cmp::Ordering>(self, f: F) -> (r: Option<T>)
             requires forall|a: &T, b: &T| call_requires(f, (a, b))
-            ensures r is Some ==> exists|i: int| 0 <= i < self@.items.len() && self@.items[i] == r->Some_0
+            /*@PARTIAL*/ ensures r is Some ==> exists|i: int| 0 <= i < self@.items.len() && self@.items[i] == r->Some_0
         { unimplemented!() }
         #[verifier::external_body]
         pub fn nth(&mut self, n: usize) -> (r: Option<T>)
